@@ -208,7 +208,7 @@ def families(asm: dict) -> Tuple[Dict[Tuple[int, int], int], Dict[int, List[Tupl
     return fam_of, members
 
 
-CHOP_KINDS = ["count", "count_c2c", "count_total", "start_c2c", "count_start", "count_end", "multi", "multi_equal"]
+CHOP_KINDS = ["count", "count_c2c", "count_total", "start_c2c", "end_c2c", "count_start", "count_end", "multi", "multi_equal", "multi_size"]
 
 
 def gen_chop(rng: random.Random, kinds=CHOP_KINDS, count: Optional[int] = None) -> List[dict]:
@@ -226,6 +226,16 @@ def gen_chop(rng: random.Random, kinds=CHOP_KINDS, count: Optional[int] = None) 
         return [{"count": n, "total_expansion": rng.choice([0.25, 0.5, 2.0, 4.0]), "preserve": pres}]
     if kind == "start_c2c":
         return [{"start_size": rng.choice([0.05, 0.08, 0.11]), "c2c_expansion": rng.choice([1.0, 1.1, 1.2]), "preserve": pres}]
+    if kind == "end_c2c":
+        # (shrinking or equal cells towards the end: always reachable)
+        return [{"end_size": rng.choice([0.05, 0.08, 0.11]), "c2c_expansion": rng.choice([0.85, 0.9, 1.0]), "preserve": pres}]
+    if kind == "multi_size":
+        # a size-based first section: its count is resolved on (average length) x (length ratio)
+        r = rng.choice([0.3, 0.4, 0.5])
+        return [
+            {"length_ratio": r, "start_size": rng.choice([0.04, 0.06]), "c2c_expansion": rng.choice([1.0, 1.1, 1.2]), "preserve": pres},
+            {"length_ratio": 1 - r, "count": max(2, n // 2), "total_expansion": rng.choice([0.5, 1.0])},
+        ]
     if kind == "count_start":
         return [{"count": n, "start_size": rng.choice([0.03, 0.05, 0.07]), "preserve": pres}]
     if kind == "count_end":
@@ -1034,6 +1044,17 @@ def compare_geo(obs: dict, ans: str, level: str = "full") -> Optional[str]:
     if not m:
         return "unparsable answer of the composed model: " + ans[:120]
     head, rs, _bs = m.groups()
+    # resolution of the user's chops (count on the average length, preserved quantity)
+    for ent, c in zip(rs.split("|") if rs else [], obs["chops"]):
+        cid, cnt, val = ent.split(":")
+        if cnt == "-":
+            continue  # the model could not resolve it: its answer is `err chop:<id>:…`, judged below
+        if int(cnt) != c["count"]:
+            return f"count of chop {c['kw']} on axis {c['x']}: implementation {c['count']}, composed model {cnt}"
+        if val != "None":
+            mv = float(core.parse_rat(val))
+            if abs(mv - c["value"]) > 1e-9 * max(abs(mv), abs(c["value"])):
+                return f"preserved {c['preserve']} of chop {c['kw']}: implementation {c['value']}, composed model {mv}"
     if head.startswith("err "):
         kind = head[4:]
         oc = obs["outcome"]
@@ -1047,16 +1068,6 @@ def compare_geo(obs: dict, ans: str, level: str = "full") -> Optional[str]:
             return None  # the implementation raised inside a calculation before the loop could end (error precedence)
     elif obs["outcome"] not in ERRMAP:
         return f"implementation raised {obs['outcome']} ({obs.get('message')}), composed model {head[:60]}"
-    # resolution of the user's chops
-    for ent, c in zip(rs.split("|") if rs else [], obs["chops"]):
-        cid, cnt, val = ent.split(":")
-        if cnt == "-":
-            return f"composed model could not resolve chop {c['kw']} although the implementation did"
-        if int(cnt) != c["count"]:
-            return f"count of chop {c['kw']} on axis {c['x']}: implementation {c['count']}, composed model {cnt}"
-        mv = float(core.parse_rat(val))
-        if abs(mv - c["value"]) > 1e-9 * max(abs(mv), abs(c["value"])):
-            return f"preserved {c['preserve']} of chop {c['kw']}: implementation {c['value']}, composed model {mv}"
     why = compare_with_model(obs, head, level=level)
     return ("composed model: " + why) if why else None
 
